@@ -512,4 +512,16 @@ theorem setPath_plain_relative (u : Url) {s : Bytes} {segs : List Bytes} (hne : 
   simp only [Url.setPath, hf, hpp, pathLoop_plain _ [] h]
   simp
 
+/-! ### requests -/
+
+theorem requestJson_fst {α : Type} (client : Client) (w : Wire) (json : Bytes → Option α) (method path : Bytes)
+    (headers : List (Bytes × Bytes)) : (client.requestJson w json method path headers).1 = client.makeRequest method path headers := by
+  simp only [Client.requestJson]
+  split
+  · rfl
+  · split
+    · split <;> rfl
+    · rfl
+    · rfl
+
 end Gd.Http
